@@ -63,11 +63,11 @@ CLAIMED["C14"] = (
     BASE + "the oracle is the property's own operational wording, evaluated with an independent cycle test on ID strings.",
     "Set-minimality beyond the single-edge criterion is not asserted (not stated).")
 CLAIMED["C15"] = (
-    "property-based testing (rapid) of concurrent schedules under the Go race detector: k goroutines released by a barrier, GOMAXPROCS varied; oracle = no race report + DeepEqual with the sequential result",
+    "property-based testing (rapid) of concurrent schedules under the Go race detector: k goroutines released by a barrier, GOMAXPROCS varied; oracle = no race report + DeepEqual with the sequential result; job mixes include wide jobs and long-running regular fishbones (state shared between calls in flight without a data race)",
     BASE + "the race detector is happens-before based: it reports a conflicting pair whenever both accesses execute unordered, not only when the bad interleaving happens, so generated concurrent executions find shared-state races reliably.",
     "The property's 'static enumeration of every package-level variable' is a different technique and is not attempted. A race report does not replay; the report is stored next to the replay file.")
 CLAIMED["C16"] = (
-    "property-based testing (rapid): validity predicate per band (extent == sum of widths + (n-1) spacing, leftmost x == 0, midpoints / right ends coincide) with helper nodes in the output",
+    "property-based testing (rapid): validity predicate per band (extent == sum of widths + (n-1) spacing, leftmost x == 0, midpoints / right ends coincide) with helper nodes in the output; bands from a handful of nodes up to fans of 8192+ nodes",
     BASE + "bands are the Y groups of the returned nodes of single-component inputs.",
     "Tolerance 1e-9 relative (sums are associated differently). LayerSpacing > 0.")
 CLAIMED["C17"] = (
@@ -75,11 +75,11 @@ CLAIMED["C17"] = (
     BASE + "multiplication by a power of two commutes exactly with +, -, max, min and /2, which is all these algorithms do with coordinates.",
     "Presupposes determinism (C07). Positioners/routings as stated (no NetworkSimplex positioner, no splines).")
 CLAIMED["C18"] = (
-    "stateful property-based testing (rapid state machine): histories of monitored / unmonitored / panicking Layout calls; invariant over the history (events stamped with the executing call) + layout with monitor == without",
+    "stateful property-based testing (rapid state machine): histories of monitored / unmonitored / panicking Layout calls (monitors that panic once or stay broken, with a string, an error value or a runtime.Error); invariant over the history (events stamped with the executing call) + layout with monitor == without",
     BASE + "the whole history shrinks as one value; panicking calls (empty graph, malformed edge after the monitor was installed, monitor's own Log panics) are part of the alphabet.",
     "The monitor is process-global state; histories are sequential (concurrency with monitors is outside C15/C18 as stated).")
 CLAIMED["C19"] = (
-    "property-based testing (rapid) inside package geom: differential against an independent visibility-graph Dijkstra + segment-in-corridor predicate; oracle self-tested against a door-to-door dynamic programme; plus small-scope exhaustive enumeration of all integer-grid corridors (<= 3 rectangles on 0..4, thorough <= 4 on 0..5) x 25 start/end positions; thorough adds a native fuzz stage",
+    "property-based testing (rapid) inside package geom: differential against an independent visibility-graph Dijkstra + segment-in-corridor predicate; oracle self-tested against a door-to-door dynamic programme; long corridors (60-2300 rectangles, TestC19Long) against a second exact oracle (O(k^2) slope-window sweep over the door end points, cross-checked with the visibility graph); plus small-scope exhaustive enumeration of all integer-grid corridors (<= 3 rectangles on 0..4, thorough <= 4 on 0..5) x 25 start/end positions; thorough adds a native fuzz stage",
     BASE + "corridors are generated with every step type (equal edges, widening, narrowing, shifts) on grid and free-float coordinates.",
     "Start/end position classes in which the pinned router is wrong (rectangle vertices, end inside/on the door line, start on the door line, interior start on a chord between corridor vertices) are known finding K1 and excluded by construction.")
 CLAIMED["C20"] = (
